@@ -1,0 +1,13 @@
+//go:build verif
+
+package util
+
+// KillPointForVerif, if set by a verification harness, is called at named steps of WriteFileAt so that a victim
+// process can terminate itself at an exact point of chunk persistence.
+var KillPointForVerif func(step string, filename string)
+
+func verifKillPoint(step string, filename string) {
+	if f := KillPointForVerif; f != nil {
+		f(step, filename)
+	}
+}
